@@ -2,6 +2,7 @@ package main
 
 import (
 	"fmt"
+	"os"
 	"go/types"
 	"strings"
 
@@ -421,7 +422,19 @@ func (fr *Frame) havocCall(cx *callCtx, why string) []Term {
 	e := fr.eng
 	e.vc.havocs[cx.name+" ("+why+")"] = true
 	reach := map[string]bool{}
-	for _, a := range cx.argTs {
+	for i, a := range cx.argTs {
+		if i < len(cx.argVs) && cx.argVs[i] != nil {
+			// an interface argument built from a statically typed value reaches what that value reaches
+			if mi, ok := cx.argVs[i].(*ssa.MakeInterface); ok {
+				a = mi.X.Type()
+			}
+		}
+		if externalHandle(a) {
+			// API client, cloud provider, recorder, clock, context: their implementations live outside the
+			// modelled heap and touch karpenter's objects only through the other arguments (listed assumption)
+			e.vc.assumes["implementations of client.Client/Reader/Writer, CloudProvider, events.Recorder, clock.Clock and context.Context modify karpenter's in-memory objects only through the other arguments of the call; error values and label selectors are immutable"] = true
+			continue
+		}
 		e.reachComps(a, reach, map[string]bool{}, true)
 	}
 	for c := range reach {
@@ -435,6 +448,35 @@ func (fr *Frame) havocCall(cx *callCtx, why string) []Term {
 		cx.st.alloc = na
 	}
 	return cx.freshResults("hv." + lastSeg(cx.name))
+}
+
+// externalHandle: interface types whose implementations are outside the modelled heap.
+func externalHandle(t types.Type) bool {
+	if strings.HasPrefix(typeKey(t), "internal/sync.") {
+		return true // hash/equality functions inside sync.Map
+	}
+	if strings.HasPrefix(typeKey(t), "github.com/awslabs/operatorpkg/option.Function") {
+		return true // functional options: applied to a fresh options struct only
+	}
+	if _, ok := t.Underlying().(*types.Interface); !ok {
+		return false
+	}
+	switch typeKey(t) {
+	case "context.Context", "error", "k8s.io/apimachinery/pkg/labels.Selector",
+		"sigs.k8s.io/controller-runtime/pkg/client.Client", "sigs.k8s.io/controller-runtime/pkg/client.Reader",
+		"sigs.k8s.io/controller-runtime/pkg/client.Writer", "sigs.k8s.io/controller-runtime/pkg/client.StatusWriter",
+		"sigs.k8s.io/controller-runtime/pkg/client.SubResourceWriter", "sigs.k8s.io/controller-runtime/pkg/client.SubResourceClient",
+		"sigs.k8s.io/controller-runtime/pkg/client.Patch",
+		"sigs.k8s.io/controller-runtime/pkg/client.ListOption", "sigs.k8s.io/controller-runtime/pkg/client.GetOption",
+		"sigs.k8s.io/controller-runtime/pkg/client.PatchOption", "sigs.k8s.io/controller-runtime/pkg/client.DeleteOption",
+		"sigs.k8s.io/controller-runtime/pkg/client.CreateOption", "sigs.k8s.io/controller-runtime/pkg/client.UpdateOption",
+		"sigs.k8s.io/controller-runtime/pkg/client.SubResourcePatchOption", "sigs.k8s.io/controller-runtime/pkg/client.SubResourceUpdateOption",
+		"sigs.k8s.io/controller-runtime/pkg/client.SubResourceCreateOption", "sigs.k8s.io/controller-runtime/pkg/client.DeleteAllOfOption",
+		"sigs.k8s.io/karpenter/pkg/cloudprovider.CloudProvider", "sigs.k8s.io/karpenter/pkg/events.Recorder",
+		"k8s.io/utils/clock.Clock", "k8s.io/utils/clock.PassiveClock", "k8s.io/utils/clock.WithTicker":
+		return true
+	}
+	return false
 }
 
 func lastSeg(s string) string {
@@ -456,6 +498,7 @@ func (e *Engine) havocComp(st *State, c string) {
 	}
 	old := e.get(st, c)
 	nw := vc.fresh("hv$"+c, e.compSort[c])
+	e.nilMapEmpty(c, nw)
 	if strings.HasPrefix(e.compSort[c], "(Array Loc ") && len(e.privGlobals) > 0 {
 		vc.decl("fn:privroot", "(declare-fun privroot (Int) Bool)")
 		vc.assumeIf(st.pc, fmt.Sprintf("(forall ((l Loc)) (! (=> (privroot (rootid l)) (= (select %s l) (select %s l))) :pattern ((select %s l))))", nw, old, nw))
@@ -472,6 +515,14 @@ func (e *Engine) havocComp(st *State, c string) {
 // reachComps collects the names of heap components whose cells are reachable from a value of type t.
 // Interfaces and function values make everything reachable ("*").
 func (e *Engine) reachComps(t types.Type, out map[string]bool, seen map[string]bool, top bool) {
+	if os.Getenv("KVC_DEBUG_REACH") != "" {
+		before := out["Box$Iface"]
+		defer func() {
+			if !before && out["Box$Iface"] {
+				fmt.Fprintf(os.Stderr, "reach: Box$Iface via %s\n", typeKey(t))
+			}
+		}()
+	}
 	k := typeKey(t)
 	if seen[k] {
 		return
@@ -491,6 +542,9 @@ func (e *Engine) reachComps(t types.Type, out map[string]bool, seen map[string]b
 		}
 	case *types.Slice:
 		el := u.Elem()
+		if externalHandle(el) {
+			return // option lists are read, not written
+		}
 		if isStructLike(el) {
 			e.reachStruct(el, out, seen)
 		} else {
@@ -510,6 +564,12 @@ func (e *Engine) reachComps(t types.Type, out map[string]bool, seen map[string]b
 			e.reachComps(u.Field(i).Type(), out, seen, false)
 		}
 	case *types.Interface, *types.Signature:
+		if externalHandle(t) {
+			return
+		}
+		if os.Getenv("KVC_DEBUG_REACH") != "" {
+			fmt.Fprintf(os.Stderr, "reach: opaque type %s\n", typeKey(t))
+		}
 		// opaque: could reach anything that was ever declared
 		for c := range e.compSort {
 			if !strings.HasPrefix(c, "$") {
@@ -586,6 +646,7 @@ func (fr *Frame) builtin(cx *callCtx, b *ssa.Builtin) []Term {
 		if sl, ok := cx.argTs[0].Underlying().(*types.Slice); ok && !isStructLike(sl.Elem()) {
 			c := e.boxComp(sl.Elem())
 			st.heap[c] = vc.fresh("hv$"+c, e.compSort[c])
+			e.nilMapEmpty(c, st.heap[c])
 		}
 		return []Term{vc.fresh("copied", "Int")}
 	case "print", "println":
